@@ -69,11 +69,14 @@ func (s *store) gc() {
 		return
 	}
 	now := time.Now().UnixMilli()
+	// expired keys are unlinked after the scan: deleting from the btree while it is being
+	// scanned skips the following key and panics (index out of range) on larger indexes
+	var expired []string
 	s.metadata.Scan(func(key string, m *metadata) bool {
 		m.Lock()
 		defer m.Unlock()
 		if m.expired(now) || !m.isOk() {
-			s.metadata.Delete(key)
+			expired = append(expired, key)
 			return true
 		}
 		if m.modified() {
@@ -88,6 +91,9 @@ func (s *store) gc() {
 		}
 		return true
 	})
+	for _, key := range expired {
+		s.metadata.Delete(key)
+	}
 }
 
 // close the store
